@@ -195,6 +195,12 @@ func (c *cCfg) toml(outDir string) string {
 	return b.String()
 }
 
+func (c *cCfg) tomlSansMotion(outDir string) string {
+	d := *c
+	d.MotionKeys = nil
+	return d.toml(outDir)
+}
+
 func randName(r *verifsim.Run, maxLen int) string {
 	n := r.OneOf(0, 1, 5, 12, r.Range(0, maxLen), maxLen)
 	alphabet := []rune("abcXYZ019-_ .äß√日\"\\#'")
@@ -349,6 +355,43 @@ func genCfg(r *verifsim.Run, focus string) cCfg {
 	return c
 }
 
+// applyMotionKeys: the settings in force for a camera model = the model's defaults overlaid with the keys
+// present in [thermal-motion] (their values taken from src).
+func applyMotionKeys(model string, keys []string, src goconfig.ThermalMotion) goconfig.ThermalMotion {
+	out := goconfig.DefaultThermalMotion(model)
+	for _, kv := range keys {
+		switch strings.TrimSpace(strings.SplitN(kv, "=", 2)[0]) {
+		case "dynamic-threshold":
+			out.DynamicThreshold = src.DynamicThreshold
+		case "temp-thresh":
+			out.TempThresh = src.TempThresh
+		case "delta-thresh":
+			out.DeltaThresh = src.DeltaThresh
+		case "count-thresh":
+			out.CountThresh = src.CountThresh
+		case "frame-compare-gap":
+			out.FrameCompareGap = src.FrameCompareGap
+		case "use-one-diff-only":
+			out.UseOneDiffOnly = src.UseOneDiffOnly
+		case "warmer-only":
+			out.WarmerOnly = src.WarmerOnly
+		case "trigger-frames":
+			out.TriggerFrames = src.TriggerFrames
+		case "edge-pixels":
+			out.EdgePixels = src.EdgePixels
+		case "temp-thresh-min":
+			out.TempThreshMin = src.TempThreshMin
+		case "temp-thresh-max":
+			out.TempThreshMax = src.TempThreshMax
+		case "verbose":
+			out.Verbose = src.Verbose
+		default:
+			panic("unknown thermal-motion key in " + kv)
+		}
+	}
+	return out
+}
+
 // remodel: the same config.toml with a camera of another model (and possibly another resolution and
 // frame rate) behind it.
 func remodel(r *verifsim.Run, c cCfg) cCfg {
@@ -356,37 +399,7 @@ func remodel(r *verifsim.Run, c cCfg) cCfg {
 	old := c.Exp
 	models := []string{lepton3.Model, lepton3.Model35, "boson"}
 	c.Model = models[r.Draw(3)]
-	c.Exp = goconfig.DefaultThermalMotion(c.Model)
-	for _, kv := range c.MotionKeys {
-		switch strings.TrimSpace(strings.SplitN(kv, "=", 2)[0]) {
-		case "dynamic-threshold":
-			c.Exp.DynamicThreshold = old.DynamicThreshold
-		case "temp-thresh":
-			c.Exp.TempThresh = old.TempThresh
-		case "delta-thresh":
-			c.Exp.DeltaThresh = old.DeltaThresh
-		case "count-thresh":
-			c.Exp.CountThresh = old.CountThresh
-		case "frame-compare-gap":
-			c.Exp.FrameCompareGap = old.FrameCompareGap
-		case "use-one-diff-only":
-			c.Exp.UseOneDiffOnly = old.UseOneDiffOnly
-		case "warmer-only":
-			c.Exp.WarmerOnly = old.WarmerOnly
-		case "trigger-frames":
-			c.Exp.TriggerFrames = old.TriggerFrames
-		case "edge-pixels":
-			c.Exp.EdgePixels = old.EdgePixels
-		case "temp-thresh-min":
-			c.Exp.TempThreshMin = old.TempThreshMin
-		case "temp-thresh-max":
-			c.Exp.TempThreshMax = old.TempThreshMax
-		case "verbose":
-			c.Exp.Verbose = old.Verbose
-		default:
-			panic("remodel: unknown thermal-motion key in " + kv)
-		}
-	}
+	c.Exp = applyMotionKeys(c.Model, c.MotionKeys, old)
 	if r.Chance(1, 2) {
 		c.W, c.H = r.Range(4, 10), r.Range(4, 8)
 	}
@@ -731,7 +744,9 @@ func execPlain(sc *cScenario) *cResult {
 			cn.OutDir = outDir
 			// runMain parses config.toml once and hands the same *Config to every handleConn: a reconnect
 			// with an unchanged configuration therefore re-uses the object (a changed file means a restart)
-			if ci == 0 || cn.Cfg.toml(outDir) != sc.Conns[ci-1].Cfg.toml(outDir) {
+			// (checkConfigChanges ignores the motion section: an edit of [thermal-motion] alone does not
+			// restart the daemon and takes effect with the next connection, through LoadMotionConfig)
+			if ci == 0 || cn.Cfg.tomlSansMotion(outDir) != sc.Conns[ci-1].Cfg.tomlSansMotion(outDir) {
 				conf, err = ParseConfig(confDir)
 			}
 			if err != nil {
@@ -1204,10 +1219,23 @@ func runCE2E(r *verifsim.Run) {
 		}
 		if !big && !fastFirst && i > 0 && r.Chance(1, 2) {
 			cfg = sc.Conns[0].Cfg // same camera reconnects
-			if r.Chance(1, 2) {
+			switch r.Draw(4) {
+			case 0, 1:
 				// ... or another camera is plugged in while the daemon keeps running (config.toml untouched, the
 				// Config object is re-used): keys absent from the file take the defaults of the *new* model
 				cfg = remodel(r, cfg)
+			case 2:
+				// ... or [thermal-motion] was edited meanwhile: the daemon keeps running (that section is not
+				// watched) and reads it again for the new connection
+				fresh := genCfg(r, r.Prop)
+				edited := cfg
+				edited.MotionKeys = fresh.MotionKeys
+				edited.Exp = applyMotionKeys(cfg.Model, fresh.MotionKeys, fresh.Exp)
+				edited.Amp = fresh.Amp
+				if edited.Preview*edited.Fps+edited.Exp.TriggerFrames > 0 && 2*edited.Exp.EdgePixels+2 <= edited.W && 2*edited.Exp.EdgePixels+2 <= edited.H {
+					cfg = edited
+					r.Probe("motion-section-edited-between-connections")
+				}
 			}
 		}
 		if r.Prop == "C14" {
